@@ -40,7 +40,9 @@ LEVEL_NOTE = ("Theorems are about the Gallina model Lang/Lexer.v + Lang/Parser.v
               "both on the same generated texts (accept/reject, error class, error position, token "
               "streams) on every run. Acceptance against the full June-2018 document grammar is proved for "
               "values and types; for selections and definitions it rests on the correspondence.")
-RULE = ("texts from the grammar-directed generator (executable, SDL and mixed documents, standalone values "
+RULE = ("long flat runs (1 200 - 5 000 comment lines / commas / blank lines / spaces, 2 000 siblings, around valid "
+        "and invalid cores; outcome must be that of the text with the run collapsed, at recursion limit 1000); "
+        "texts from the grammar-directed generator (executable, SDL and mixed documents, standalone values "
         "and types, raw token streams; all 8 flag triples; random trivia) plus token-level and "
         "character-level mutants, truncations, number/escape enumerations; non-trivial = the text has at "
         "least 3 tokens or is a rejected mutant; distinct = distinct (entry, flags, text)")
@@ -123,6 +125,9 @@ def corpus():
         case("lex", (False, False, False), "1...", "corpus:follow"),
         case("lex", (False, False, False), "0xF 1_ 01 1.5e3.2", "corpus:follow"),
         case("doc", (False, False, False), "{ a(x: 1.2...) }", "corpus:follow"),
+        # seed C01-h: ~1000 consecutive comment lines (a licence header) -- flat, no nesting
+        flat_case("doc", (False, False, False), "", "# a licence header line\n", 1200, "{ a }", "ignored", "corpus:C01-h"),
+        flat_case("value", (True, True, True), "[1 ", "# x\n", 1200, " 2]", "ignored", "corpus:C01-h"),
         {"entry": "named", "name": "deep-nesting", "depth": 2000, "flags": [False, False, False],
          "text": "", "origin": "corpus:row7"},
     ]
@@ -224,12 +229,113 @@ def generate(rng, tier):
             continue
         for flags in G.FLAG_TRIPLES:
             out.append(case("doc", flags, text, "enum:production-" + label))
+    out += flat_cases(quick)
     # one text per lexical error site, inside a document, under all 8 flag triples
     for text in LEXICAL_ERRORS:
         for flags in G.FLAG_TRIPLES:
             out.append(case("doc", flags, text, "enum:lexical-error"))
             out.append(case("doc", flags, "scalar S " + text, "enum:lexical-error"))
     return out
+
+
+# ---------------------------------------------------------------- long flat runs
+# Texts with a very long run of one unit and no nesting (depth <= 3).  "ignored" runs (comment lines,
+# commas, blank lines, spaces) must not change the outcome at all: the case's text is the run collapsed
+# to ONE unit (that short text goes to the model), and the implementation's outcome on the long text
+# must be its outcome on the collapsed one (verdict, error class, tree without locations, token
+# classes and values).  "sibling" runs (fields, arguments, list items, definitions ...) must not
+# change verdict or error class.  Never anything but a syntax error: run at recursion limit 1000.
+def flat_case(entry, flags, pre, unit, n, post, kind, label):
+    c = case(entry, flags, pre + unit + post, "flat:" + label)
+    c["flat"] = {"pre": pre, "unit": unit, "n": n, "post": post, "kind": kind}
+    return c
+
+
+def flat_cases(quick):
+    f0, ts = (False, False, False), (False, True, False)
+    nl = (True, True, True)
+    out = []
+    ignored = [("# a licence header line\n", 1200, "comments-1200"), (",", 3000, "commas-3000")]
+    if not quick:
+        ignored += [("# x\n", 3000, "comments-3000"), ("\n", 3000, "blank-lines-3000"), (" ", 5000, "spaces-5000"),
+                    ("#\r\n", 1500, "crlf-comments-1500"), ("\ufeff", 2000, "boms-2000"), ("#\n,\t", 1500, "mixed-1500")]
+    cores = {
+        "doc": [("", "{ a }"), ("{ a ", " }"), ("{ a }", ""), ("", "{ a"), ("{ ", " ? }"), ("", '{ a(x: "abc }'),
+                ("query Q ", " { a }")],
+        "value": [("", "[1, 2]"), ("[1 ", " 2]"), ("[1 ", " }"), ("", "$")],
+        "type": [("", "[Int!]"), ("[Int ", " !]"), ("[Int ", "")],
+        "lex": [("a ", " b"), ("", '"unterminated')],
+    }
+    for unit, n, label in ignored:
+        for entry, pairs in cores.items():
+            for i, (pre, post) in enumerate(pairs if not quick else pairs[:2] + pairs[3:4]):
+                flagsets = [f0] if quick else [f0, nl]
+                for fl in flagsets:
+                    out.append(flat_case(entry, fl, pre, unit, n, post, "ignored", label))
+    siblings = [("doc", f0, "{ ", "a ", "}", "fields"), ("value", f0, "[", "1 ", "]", "list-items")]
+    if not quick:
+        siblings += [("doc", f0, "{ f(", "x: 1 ", ") }", "arguments"), ("doc", f0, "", "{ a } ", "", "definitions"),
+                     ("doc", f0, "{ ", "...F ", "}", "spreads"), ("doc", f0, "{ a ", "@d ", "}", "directives"),
+                     ("doc", f0, "query (", "$v: Int ", ") { a }", "variable-definitions"),
+                     ("doc", ts, "", "scalar S ", "", "sdl-definitions"), ("doc", ts, "type T { ", "f: Int ", "}", "sdl-fields"),
+                     ("doc", ts, "enum E { ", "A ", "}", "enum-values"), ("doc", ts, "union U = ", "| A ", "", "union-members"),
+                     ("doc", ts, "type T implements ", "& I ", "{ f: Int }", "interfaces"),
+                     ("value", f0, "{", "a: 1 ", "}", "object-fields"), ("value", f0, "[", "[] ", "]", "empty-lists"),
+                     ("doc", f0, "{ ", "a ", "", "fields-unterminated"), ("value", f0, "[", "1 ", "}", "list-items-wrong-close"),
+                     ("lex", f0, "", "a ", "", "names"), ("lex", f0, "", "1.5 ", "", "numbers")]
+    for entry, fl, pre, unit, post, label in siblings:
+        out.append(flat_case(entry, fl, pre, unit, 2000, post, "siblings", label + "-2000"))
+    # moderately long ones on the model itself
+    longs = [("doc", f0, "# c\n" * 1200 + "{ a }")]
+    if not quick:
+        longs += [("value", f0, "#\n" * 1200 + "[1]"), ("type", f0, "#\n" * 1200 + "Int!"), ("lex", f0, "#\n" * 1200 + "a"),
+                  ("doc", f0, "{ a " + "," * 3000 + "}"), ("doc", f0, "# c\n" * 1200 + "{ a"), ("doc", f0, "{ " + "a " * 1500 + "}")]
+    for entry, fl, text in longs:
+        out.append(case(entry, fl, text, "flat:on-the-model"))
+    return out
+
+
+def _strip_locs(d):
+    if isinstance(d, dict):
+        return {k: _strip_locs(v) for k, v in d.items() if k not in ("loc", "source")}
+    if isinstance(d, (list, tuple)):
+        return [_strip_locs(x) for x in d]
+    return d
+
+
+def _flat_outcome(entry, flags, src):
+    """outcome without positions: verdict, error class, tree without locations / token classes and values"""
+    kw = {"no_location": flags[0], "allow_type_system": flags[1], "experimental_fragment_variables": flags[2]}
+    try:
+        if entry == "doc":
+            return ("accept", _strip_locs(parse(src, **kw).to_dict()))
+        if entry == "value":
+            return ("accept", _strip_locs(parse_value(src, **kw).to_dict()))
+        if entry == "type":
+            return ("accept", _strip_locs(parse_type(src, **kw).to_dict()))
+        return ("tokens", [[type(t).__name__, t.value] for t in Lexer(src)])
+    except GraphQLSyntaxError as e:
+        return ("reject", type(e).__name__)
+    except Exception as e:  # noqa
+        return ("other", type(e).__name__)
+
+
+def _run_flat(c):
+    f = c["flat"]
+    long_text = f["pre"] + f["unit"] * f["n"] + f["post"]
+    res = {"long_length": len(long_text)}
+    for src, what in ((long_text, "str"), (long_text.encode("utf8"), "bytes")):
+        lo = _flat_outcome(c["entry"], c["flags"], src)
+        so = _flat_outcome(c["entry"], c["flags"], c["text"])
+        if lo[0] == "other":
+            res.setdefault("other", "%s (%s input, run of %d x %r)" % (lo[1], what, f["n"], f["unit"]))
+        elif f["kind"] == "ignored" and lo != so:
+            res.setdefault("mismatch", "%s input: %s on the long text, %s with the run collapsed"
+                           % (what, str(lo)[:120], str(so)[:120]))
+        elif f["kind"] == "siblings" and (lo[0] != so[0] or (lo[0] == "reject" and lo[1] != so[1])):
+            res.setdefault("mismatch", "%s input: %s on the long text, %s with one sibling"
+                           % (what, str(lo)[:80], str(so)[:80]))
+    return res
 
 
 # ---------------------------------------------------------------- implementation side
@@ -315,6 +421,21 @@ def run_impl(c):
         finally:
             sys.setrecursionlimit(old)
         return {"named": [o, o2, o3]}
+    if c.get("origin", "").startswith("flat"):
+        old = sys.getrecursionlimit()
+        sys.setrecursionlimit(1000)
+        try:
+            o = _run_plain(c)
+            if "flat" in c:
+                o = dict(o)
+                o["flat"] = _run_flat(c)
+        finally:
+            sys.setrecursionlimit(old)
+        return o
+    return _run_plain(c)
+
+
+def _run_plain(c):
     o = _run_once(c["entry"], c["flags"], c["text"])
     try:
         b = c["text"].encode("utf8")
@@ -361,7 +482,8 @@ def nontrivial(c, obs):
 
 
 def canonical(c):
-    return (c["entry"], tuple(c["flags"]), c["text"])
+    f = c.get("flat")
+    return (c["entry"], tuple(c["flags"]), c["text"], (f["n"], f["kind"]) if f else None)
 
 
 _TRUNC = re.compile(r'\\(u[0-9A-Fa-f]{0,3})?\Z')
@@ -402,6 +524,11 @@ def direct_checks(c, obs):
             out.append(("error-can-be-rendered: " + r, None))
     if "bytes_observable" in obs:
         out.append(("utf8-bytes-behave-like-the-text", None))
+    fl = obs.get("flat", {})
+    if "other" in fl:
+        out.append(("fails-only-with-syntax-errors: %s on a long flat run" % fl["other"], None))
+    if "mismatch" in fl:
+        out.append(("long-flat-runs-do-not-change-the-outcome: " + fl["mismatch"], None))
     return out
 
 
@@ -409,6 +536,15 @@ def shrink(c, is_bad):
     """drop characters while the disagreement persists"""
     if c["entry"] == "named":
         return c
+    if "flat" in c:
+        # shorten the run while the failure persists
+        f = dict(c["flat"])
+        while f["n"] > 2:
+            cand = dict(c, flat=dict(f, n=f["n"] // 2))
+            if not is_bad(cand):
+                break
+            f = cand["flat"]
+        return dict(c, flat=f)
     text = c["text"]
     step = max(1, len(text) // 2)
     budget = 60
